@@ -122,9 +122,10 @@ func drawC01(t *rapid.T) C01Case {
 		MaxActions: rapid.SampledFrom([]int{6, 12, 25, 40}).Draw(t, "maxActions"),
 		Accruals:   rapid.IntRange(0, 2).Draw(t, "accruals") == 0,
 		Assertions: true, Closes: true, Perf: true,
-		Prices:  1,
-		MaxDec:  rapid.SampledFrom([]int{2, 4, 8}).Draw(t, "maxDec"),
-		Unicode: rapid.IntRange(0, 5).Draw(t, "unicode") == 0,
+		Prices:    1,
+		MaxDec:    rapid.SampledFrom([]int{2, 4, 8}).Draw(t, "maxDec"),
+		Unicode:   rapid.IntRange(0, 5).Draw(t, "unicode") == 0,
+		WideDates: true,
 	}
 	j := gen.GenJournal(t, cfg)
 	if rapid.IntRange(0, 3).Draw(t, "shuffle") == 0 {
